@@ -16,7 +16,7 @@ from props import PROPS  # noqa: E402
 
 # operations whose expected answer is fixed by the property (the implementation side always prints the
 # answer the property demands); the Lean side evaluates the specification predicate on the implementation's value
-DIRECT_OPS = {"respell": "not-a-respelling"}
+DIRECT_OPS = {"respell": "not-a-respelling", "secretsafe": "secret-dependent-flow"}
 
 
 def sh(cmd, cwd=None, env=None, timeout=None, stdin=None, stdout=None):
@@ -68,14 +68,14 @@ def dir_digest(d, exts):
     return h.hexdigest()
 
 
-def build_go_tool(name, tags=None):
-    """Build /verif/<name> into run/bin/<name> (only when its sources changed)."""
+def build_go_tool(name, tags=None, race=False):
+    """Build /verif/<name> into run/bin/<name>[-race]."""
     src = os.path.join(ROOT, name)
-    out = os.path.join(BIN, name)
+    out = os.path.join(BIN, name + ("-race" if race else ""))
     os.makedirs(BIN, exist_ok=True)
     if not os.path.exists(os.path.join(src, "go.sum")) or name == "harness":
         shutil.copyfile(os.path.join(REPO, "go.sum"), os.path.join(src, "go.sum"))
-    cmd = ["go", "build"] + (["-tags", tags] if tags else []) + ["-o", out, "."]
+    cmd = ["go", "build"] + (["-race"] if race else []) + (["-tags", tags] if tags else []) + ["-o", out, "."]
     rc, outp, dt = sh(cmd, cwd=src, env=GOENV, timeout=900)
     return rc, outp
 
@@ -130,7 +130,18 @@ def lean_audit(pid, log):
         res["errors"].append("no Props file for " + pid)
         return res
     src = open(path).read()
-    names = re.findall(r"^theorem\s+([A-Za-z0-9_.']+)", strip_lean_comments(src), flags=re.M)
+    body = strip_lean_comments(src)
+    local = re.findall(r"^theorem\s+([A-Za-z0-9_.']+)", body, flags=re.M)
+    audited = re.findall(r"^#print axioms\s+([A-Za-z0-9_.']+)", body, flags=re.M)
+    # obligations = every theorem the file audits with `#print axioms` (its own, or property theorems it
+    # takes from a shared Props file); a local theorem that is not audited counts as undischarged
+    names = []
+    for n in audited:
+        if n not in names:
+            names.append(n)
+    for n in local:
+        if not any(a == n or a.endswith("." + n) for a in audited):
+            names.append(n)
     res["theorems"] = names
     res["obligations"] = len(names)
     rc, outp, dt = sh(["lake", "build", mod, "driver"], cwd=LEAN, timeout=3600)
@@ -150,7 +161,7 @@ def lean_audit(pid, log):
         errs = [outp2[-3000:]]
     res["errors"] += errs[:20]
     for n in names:
-        full = [k for k in ax if k == n or k.endswith("." + n)]
+        full = [k for k in ax if k == n or k.endswith("." + n) or n.endswith("." + k)]
         if not full:
             res["failed"].append(n + " (no axiom report: not proved or not audited)")
             continue
@@ -174,10 +185,18 @@ def run_suite(pid, suite, tier, seed, workdir, log, replay=None):
         p = os.path.join(workdir, suite + ext)
         if os.path.exists(p):
             os.remove(p)
-    cmd = [os.path.join(BIN, "harness"), suite, "-out", workdir, "-seed", str(seed), "-tier", tier]
+    race = suite.startswith("race:")
+    if race:
+        suite = suite[5:]
+    cmd = [os.path.join(BIN, "harness-race" if race else "harness"), suite, "-out", workdir, "-seed", str(seed), "-tier", tier]
     if replay:
         cmd += ["-replay", replay]
     env = dict(GOENV, GOMEMLIMIT="12GiB")
+    racelog = os.path.join(workdir, "race-" + suite)
+    if race:
+        for f in glob.glob(racelog + ".*"):
+            os.remove(f)
+        env["GORACE"] = "halt_on_error=0 exitcode=0 log_path=" + racelog
     rc, outp, dt = sh(cmd, env=env, timeout=7200)
     log.append("harness %s: %.1fs rc=%d" % (suite, dt, rc))
     r = {"suite": suite, "ops": 0, "mismatches": [], "propfails": [], "stats": {}, "samples": [], "distinct": 0, "extra": {},
@@ -185,8 +204,20 @@ def run_suite(pid, suite, tier, seed, workdir, log, replay=None):
     if rc != 0:
         return r
     meta = json.load(open(os.path.join(workdir, suite + ".json")))
+    r["direct"] = meta.get("direct", 0)
     r.update(ops=meta["ops"], propfails=meta["propfails"] or [], stats=meta["stats"], samples=meta["samples"] or [],
              distinct=meta["distinct_nontrivial"], extra=meta.get("extra") or {})
+    if race:
+        reports = []
+        for f in sorted(glob.glob(racelog + ".*")):
+            txt = open(f, errors="replace").read()
+            reports += [b for b in txt.split("==================") if "DATA RACE" in b]
+        r["extra"]["race_detector"] = "on"
+        r["extra"]["race_reports"] = len(reports)
+        for b in reports[:5]:
+            sites = re.findall(r"^\s+(/repo/\S+:\d+)", b, flags=re.M)
+            r["propfails"].append({"kind": "data-race", "desc": "race detector: unsynchronised conflicting accesses at " + ", ".join(dict.fromkeys(sites[:4])),
+                                   "input": {"suite": "race:" + suite, "report": b.strip()[:3000]}})
     opsf = os.path.join(workdir, suite + ".ops")
     if meta["ops"] > 0:
         with open(opsf, "rb") as fin, open(os.path.join(workdir, suite + ".lean"), "wb") as fout:
@@ -217,8 +248,12 @@ def run_suite(pid, suite, tier, seed, workdir, log, replay=None):
                     r["stats"]["propfail:roundtrip"] = r["stats"].get("propfail:roundtrip", 0) + 1
                 if word == "roundtrip":
                     r["stats"]["roundtrip:" + ("in" if "dom=in" in ann else "out") + ":" + g.strip()] = r["stats"].get("roundtrip:" + ("in" if "dom=in" in ann else "out") + ":" + g.strip(), 0) + 1
-                if word == "restable" and g.strip() in ("reject", "diff"):
+                if word == "restable" and g.strip() in ("reject", "diff") and "dom=in" in ann:
                     inp = {"suite": suite, "op": op.strip()[:2000]}
+                    for kv in ann.split():
+                        if "=" in kv:
+                            k, v = kv.split("=", 1)
+                            inp[k] = v
                     if len(r["propfails"]) < 50:
                         r["propfails"].append({"kind": "remarshal-unstable", "desc": "re-marshalling an unmarshalled value gave a string that unmarshals differently: " + g.strip(), "input": inp})
                 if g != l:
@@ -302,6 +337,10 @@ def main(argv):
         rc, outp = build_go_tool("harness", tags="verif")
         if rc != 0:
             problems.append(("harness-build", outp[-3000:]))
+        if any(x.startswith("race:") for x in cfg["suites"]):
+            rc, outp = build_go_tool("harness", tags="verif", race=True)
+            if rc != 0:
+                problems.append(("harness-build", outp[-3000:]))
 
     if audit["errors"] or audit["discharged"] != audit["obligations"] or audit["obligations"] == 0:
         problems.append(("proof", "obligations=%d discharged=%d failed=%s errors=%s" % (
@@ -318,13 +357,15 @@ def main(argv):
         if s.get("harness_rc", 0) != 0:
             problems.append(("harness-run", "%s exited %s: %s" % (s["suite"], s["harness_rc"], s["harness_out"])))
         for f in s["propfails"]:
+            if cfg.get("fail_kinds") is not None and f.get("kind") not in cfg["fail_kinds"]:
+                continue   # this suite is shared; the failure kind belongs to another property's check
             k = is_known(pid, f, known)
             (known_hits if k else new_fails).append((f, k))
         if s["mismatches"]:
             problems.append(("correspondence", "%s: %d model/implementation disagreements, first: %s" % (
                 s["suite"], s.get("n_mismatch", len(s["mismatches"])), json.dumps(s["mismatches"][0]))))
 
-    evaluations = sum(s["ops"] for s in suites)
+    evaluations = sum(s["ops"] + s.get("direct", 0) for s in suites)
     distinct = sum(s["distinct"] for s in suites)
     samples = []
     for s in suites:
@@ -343,7 +384,7 @@ def main(argv):
             "bv_decide_axioms": audit["bv_axioms"],
             "evaluations": evaluations, "distinct_nontrivial": distinct,
             "rule": cfg.get("rule", ""), "samples": samples,
-            "suites": [{"suite": s["suite"], "ops": s["ops"], "disagreements": s.get("n_mismatch", 0), "stats": s["stats"],
+            "suites": [{"suite": s["suite"], "ops": s["ops"], "direct_evaluations": s.get("direct", 0), "disagreements": s.get("n_mismatch", 0), "stats": s["stats"],
                         "extra": s["extra"], "propfails": len(s["propfails"])} for s in suites],
             "source_digest": digest, "known_findings_reported": len(known_hits),
             "explanation": cfg.get("explanation", ""),
